@@ -169,6 +169,7 @@ class World(object):
             self.nodes[addr] = n
         # server application behaviour: (src, payload) -> request record
         self.policy = {}
+        self.parked = {}
         for i, r in enumerate(spec.get('requests') or []):
             r = dict(r)
             r['no'] = i
@@ -179,6 +180,8 @@ class World(object):
         for inj in spec.get('inject') or []:
             if 'after' not in inj:
                 heapq.heappush(self.delayed, (inj['t'] / 1000.0, next(self.seq), 'inject', inj))
+        for ia in spec.get('iam') or []:
+            heapq.heappush(self.delayed, (ia['t'] / 1000.0, next(self.seq), 'iam', ia))
 
     # ---- medium
     def sent(self, src, apdu):
@@ -253,7 +256,16 @@ class World(object):
         delay = (rec or {}).get('resp_delay', 0)
         job = {'node': addr, 'to': src, 'invoke': h['invoke'], 'service': h['service'], 'resp': resp,
                'no': rec['no'] if rec else -1}
-        if delay:
+        if delay == -1:
+            # the application parks its answer (it will give it from inside a later indication, or never)
+            self.parked.setdefault(addr, []).append(job)
+        elif delay == -2:
+            # ... and here it first gives every answer it has parked, then answers this request, all inside this indication
+            jobs, self.parked[addr] = self.parked.get(addr, []), []
+            for j in jobs:
+                self.respond(j)
+            self.respond(job)
+        elif delay:
             heapq.heappush(self.delayed, (NOW[0] + delay / 1000.0, next(self.seq), 'respond', job))
         else:
             self.respond(job)
@@ -338,6 +350,20 @@ class World(object):
             octets = bytes(p.pduData)
         self.deliver_octets(inj['src'], inj['dst'], octets, ('inj', octets.hex()))
 
+    def do_iam(self, ia):
+        """an I-Am of station ia['peer'] reaches the application of node ia['node'], which records it"""
+        from bacpypes.apdu import IAmRequest
+        from bacpypes.pdu import Address
+        n = self.nodes[ia['node']]
+        iam = IAmRequest(iAmDeviceIdentifier=('device', int(ia['peer'])), maxAPDULengthAccepted=ia['maxApdu'],
+                         segmentationSupported=ia['seg'], vendorID=999)
+        iam.pduSource = Address(int(ia['peer']))
+        self.trace.ev('iam', ms(NOW[0]), ia['node'], ia['peer'], ia['maxApdu'], ia['seg'])
+        try:
+            n['cache'].iam_device_info(iam)
+        except Exception as e:
+            self.exn(e, 'iam', ia['node'])
+
     # ---- observation of the live state
     def snapshot(self):
         out = []
@@ -402,6 +428,8 @@ class World(object):
                         self.respond(what)
                     elif kind == 'inject':
                         self.do_inject(what)
+                    elif kind == 'iam':
+                        self.do_iam(what)
                 else:
                     task, _ = tm.get_next_task()
                     if task is not None:
@@ -505,7 +533,7 @@ def cksum(data):
 
 
 HDR_KEYS = ['type', 'seg', 'mor', 'sa', 'srv', 'nak', 'seq', 'win', 'maxsegs', 'maxresp', 'service', 'invoke', 'reason']
-WHERE = {'rx': 0, 'timer': 1, 'respond': 2, 'submit': 3, 'decode': 4, 'deferred': 5}
+WHERE = {'rx': 0, 'timer': 1, 'respond': 2, 'submit': 3, 'decode': 4, 'deferred': 5, 'iam': 6}
 
 
 def canon_trace(tr):
@@ -605,9 +633,24 @@ def time_bound(tr, r):
     rl = r['len']
     pl = r['resp'][1] if r.get('resp', ['simple'])[0] in ('complex', 'error') else 0
     segs = nsegs(rl, 50) + nsegs(pl, 50) + 2
-    delays = sum(sum(v) for v in (tr.spec.get('faults') or {}).values()) + r.get('resp_delay', 0)
+    delays = sum(sum(v) for v in (tr.spec.get('faults') or {}).values()) + max(r.get('resp_delay', 0), 0)
     k = sum(1 for e in tr.events if e[0] == 'rx' and e[4] == r['src'])
     return (R + 1) * ta + (R + 1) * (R + 1) * segs * tso + delays + k * max(ta, tso) + s['appTimeout']
+
+
+def _is_abort_echo(tr, pos, fr):
+    """ServerSSM.segmented_request/segmented_response send a client's Abort straight back (same srv bit): such a frame belongs
+    to the serving role of the node although its srv bit is 0"""
+    if fr['hdr']['type'] != 7:
+        return False
+    q = pos - 1
+    while q >= 0 and tr.events[q][0] != 'state':
+        e = tr.events[q]
+        if e[0] == 'rx':
+            h = _rx_hdr(tr, e[2])
+            return bool(h) and h['type'] == 7 and h['invoke'] == fr['hdr']['invoke'] and e[3] == fr['dst'] and e[4] == fr['src']
+        q -= 1
+    return False
 
 
 def check_c04(tr):
@@ -644,7 +687,7 @@ def check_c04(tr):
                 fr = tr.frames[e2[2]]
                 h = fr['hdr']
                 if fr['src'] == src and fr['dst'] == dst and h['invoke'] == inv and \
-                        (h['type'] == 0 or (h['type'] in (4, 7) and h['srv'] == 0)):
+                        (h['type'] == 0 or (h['type'] in (4, 7) and h['srv'] == 0)) and not _is_abort_echo(tr, p, fr):
                     f.append({'kind': 'frame-after-outcome', 'req': no, 'frame': e2[2], 'role': frame_role(fr)})
                     break
             if e2[0] == 'state' and p == opos + 1 or (e2[0] == 'state' and all(tr.events[q][0] != 'state' for q in range(opos + 1, p))):
@@ -950,8 +993,35 @@ def _decode_maxsegs(code):
     return [None, 2, 4, 8, 16, 32, 64, None][code] if 0 <= code < 8 else None
 
 
+def knowledge_states(tr, node, peer, pos_from, pos_to):
+    """what node holds about peer (I-Am data) at event position pos_from and every state it passes through up to pos_to"""
+    c = _cfg(tr, node) or {}
+    k0 = (c.get('know') or {}).get(peer) or (c.get('know') or {}).get(str(peer))
+    cur = dict(k0) if k0 is not None else None
+    states = []
+    started = False
+    for pos, e in enumerate(tr.events):
+        if pos > pos_to:
+            break
+        if pos >= pos_from and not started:
+            states.append(dict(cur) if cur is not None else None)
+            started = True
+        if e[0] == 'iam' and e[2] == node and e[3] == peer:
+            cur = dict(cur) if cur is not None else {'maxSegs': None, 'maxNpdu': None}
+            cur['maxApdu'], cur['seg'] = e[4], e[5]
+            if started:
+                states.append(dict(cur))
+    if not started:
+        states.append(dict(cur) if cur is not None else None)
+    return states
+
+
 def check_c12(tr):
     f = []
+    sub_pos = {}
+    for pos, e in enumerate(tr.events):
+        if e[0] == 'submit':
+            sub_pos.setdefault((e[2], e[3], e[5]), []).append(pos)
     last_req = {}        # (server, client, invoke) -> header of the request frame most recently delivered
     first_win = {}       # (receiver, sender, invoke, type) -> proposed window of the first segment delivered
     last_ack_win = {}
@@ -987,15 +1057,16 @@ def check_c12(tr):
                         if rq['sa'] != 1:
                             f.append({'kind': 'segmented-response-not-allowed', 'frame': fr['idx']})
             else:
-                k = (c.get('know') or {}).get(dst) or (c.get('know') or {}).get(str(dst))
-                if k is not None and k.get('maxApdu') is not None:
-                    limit = k['maxApdu']
-                    if k.get('maxNpdu') is not None:
-                        limit = min(limit, k['maxNpdu'])
-                if ty == 0 and h['seg'] == 1 and k is not None and k.get('seg') not in ('segmentedReceive', 'segmentedBoth'):
-                    f.append({'kind': 'segmented-request-to-incapable-peer', 'frame': fr['idx'], 'peer_seg': k.get('seg')})
+                # what the sender held about the destination from the moment the request was submitted up to now: a frame
+                # is judged against the most generous of those states (a transaction sized before a newer I-Am may go on)
+                starts = [p for p in sub_pos.get((src, dst, h['invoke']), []) if p <= pos]
+                states = knowledge_states(tr, src, dst, starts[-1] if starts else pos, pos)
+                if all(k is not None and k.get('maxApdu') is not None for k in states):
+                    limit = max(min(k['maxApdu'], k['maxNpdu']) if k.get('maxNpdu') is not None else k['maxApdu'] for k in states)
+                if ty == 0 and h['seg'] == 1 and all(k is not None and k.get('seg') not in ('segmentedReceive', 'segmentedBoth') for k in states):
+                    f.append({'kind': 'segmented-request-to-incapable-peer', 'frame': fr['idx'], 'peer_seg': states[-1].get('seg')})
             if limit is not None and fr['enc_len'] > limit:
-                kk = (c.get('know') or {}).get(dst) or (c.get('know') or {}).get(str(dst)) or {}
+                kk = (knowledge_states(tr, src, dst, pos, pos)[-1] or {})
                 f.append({'kind': 'apdu-longer-than-peer-max', 'frame': fr['idx'], 'role': frame_role(fr), 'enc_len': fr['enc_len'],
                           'limit': limit, 'payload_len': len(fr['data']), 'resp_dir': resp_dir, 'src': src, 'dst': dst,
                           'sender_iam_value': kk.get('maxApdu')})
@@ -1015,11 +1086,12 @@ def check_c12(tr):
     # number of segments of a response within the request's limit
     for (src, dst, inv, ty, _no), idxs in transfers(tr).items():
         if ty == 0:
-            c = _cfg(tr, src) or {}
-            k = (c.get('know') or {}).get(dst) or (c.get('know') or {}).get(str(dst)) or {}
             nseg = len(set(tr.frames[i]['hdr']['seq'] for i in idxs))
-            if k.get('maxSegs') and nseg > k['maxSegs'] and nseg <= 256:
-                f.append({'kind': 'more-request-segments-than-peer-accepts', 'invoke': inv, 'segments': nseg, 'limit': k['maxSegs']})
+            p1 = next(p for p, e in enumerate(tr.events) if e[0] == 'tx' and e[2] == min(idxs))
+            starts = [p for p in sub_pos.get((src, dst, inv), []) if p <= p1]
+            states = knowledge_states(tr, src, dst, starts[-1] if starts else p1, p1)
+            if all(k is not None and k.get('maxSegs') for k in states) and nseg > max(k['maxSegs'] for k in states) and nseg <= 256:
+                f.append({'kind': 'more-request-segments-than-peer-accepts', 'invoke': inv, 'segments': nseg, 'limit': max(k['maxSegs'] for k in states)})
         if ty != 3:
             continue
         nseg = len(set(tr.frames[i]['hdr']['seq'] for i in idxs))
@@ -1070,6 +1142,8 @@ def rand_nodes(rng, big=False, know=None, same_timeouts=None):
         nodes[0]['know'][2]['seg'] = rng.choice(SEG_NAMES)
     if nodes[1]['know'] and rng.random() < 0.15:
         nodes[1]['know'][1]['maxApdu'] = rng.choice(pool)
+    if nodes[1]['know'] and rng.random() < 0.15:
+        nodes[1]['know'][1]['seg'] = rng.choice(SEG_NAMES)
     if nodes[0]['know'] and rng.random() < 0.2:
         nodes[0]['know'][2]['maxNpdu'] = rng.choice([50, 128, 206])
     if nodes[0]['know'] and rng.random() < 0.3:
@@ -1223,6 +1297,9 @@ def gen_capability(rng, big=True):
         nodes[0]['know'][2]['maxNpdu'] = rng.choice([50, 128, 480])
     if nodes[1]['know'] and rng.random() < 0.2:
         nodes[1]['know'][1]['maxApdu'] = rng.choice(MAX_APDUS)
+    if nodes[1]['know'] and rng.random() < 0.25:
+        # what the server recorded from the client's I-Am contradicts what the request itself says (SA bit)
+        nodes[1]['know'][1]['seg'] = rng.choice(SEG_NAMES)
     k = nodes[0]['know'].get(2) if nodes[0]['know'] else None
     rsz = (k or {}).get('maxApdu') or cmax
     lim = {0: 3, 2: 2, 4: 4, 8: 8}.get(sms, 5)
@@ -1271,6 +1348,154 @@ def gen_scripted_windows(rng, server_side=None, wins=None):
         spec['inject'] = spec['inject'] + [{'after': acked_upto, 'src': 9, 'dst': 1, 'frame': ack}]
         if burst[k]['hdr']['mor'] == 0:
             break
+    return spec
+
+
+def gen_bidirectional(rng):
+    """two or three nodes that are client AND server towards each other at once: both allocate invoke ids from 1, so equal ids
+    are live in both directions; late / duplicate Aborts of both polarities (srv = 0 and 1) are injected from the real peers.
+    No I-Am records (a node's record of a peer it also serves would be upgraded in place by ServerSSM.idle: not modelled)."""
+    nn = rng.choice([2, 2, 3])
+    cmax = rng.choice([50, 128])
+    mk = lambda a: node_cfg(a, maxApdu=cmax, window=rng.randrange(1, 4), retries=rng.choice([0, 1, 2]), apduTimeout=rng.choice([1000, 3000]),
+                            segTimeout=rng.choice([500, 1500]), appTimeout=rng.choice([1000, 3000, 6000]))
+    nodes = [mk(a) for a in range(1, nn + 1)]
+    reqs = []
+    for i in range(rng.choice([2, 3, 4, 6, 8])):
+        src = rng.randrange(1, nn + 1)
+        dst = rng.choice([a for a in range(1, nn + 1) if a != src])
+        kind = rng.choice(['complex', 'complex', 'simple', 'simple', 'error', 'silent'])
+        resp = ['complex', rng.choice([3, cmax - 5, cmax + 7, 2 * cmax + 3])] if kind == 'complex' else ['error', 4] if kind == 'error' else [kind]
+        reqs.append({'t': rng.choice([0, 0, 0, 125, 250, 500, 1000]), 'src': src, 'dst': dst, 'len': rng.choice([2, 5, cmax + 5, 2 * cmax + 1]),
+                     'service': 12, 'resp': resp, 'resp_delay': rng.choice([0, 0, 125, 500, 2000, 4000])})
+    spec = {'nodes': nodes, 'requests': reqs}
+    base = run_scenario(spec)
+    n = len(base.frames)
+    if rng.random() < 0.5 and n:
+        spec['faults'] = rand_faults(rng, n, rng.randrange(1, 3))
+    inj = []
+    for _ in range(rng.randrange(1, 5)):
+        a, b = rng.sample(range(1, nn + 1), 2)
+        fr = {'type': 7, 'srv': rng.random() < 0.5, 'invoke': rng.choice([1, 1, 2, 3]), 'reason': rng.choice([0, 4, 9])}
+        where = {'after': rng.randrange(0, n + 1)} if n and rng.random() < 0.7 else {'t': rng.choice([0, 125, 500, 1000, 3000, 9000])}
+        inj.append(dict(where, src=a, dst=b, frame=fr))
+    spec['inject'] = inj
+    return spec
+
+
+def gen_park_flush(rng):
+    """a server application that parks answers and gives them from inside a later indication: two to four clients whose
+    requests carry EQUAL invoke ids (every stack starts at 1) towards one server"""
+    nc = rng.choice([2, 2, 3, 4])
+    cmax = rng.choice([50, 128])
+    srv = node_cfg(10, maxApdu=cmax, appTimeout=rng.choice([3000, 6000, 20000]), retries=1, window=2)
+    clients = [node_cfg(a, maxApdu=cmax, retries=rng.choice([0, 1, 3]), apduTimeout=rng.choice([1000, 3000]), segTimeout=500, window=2)
+               for a in range(1, nc + 1)]
+    reqs = []
+    t = 0
+    order = list(range(1, nc + 1))
+    rng.shuffle(order)
+    for k, a in enumerate(order):
+        last = (k == len(order) - 1)
+        mode = -2 if (last or rng.random() < 0.2) else rng.choice([-1, -1, -1, 0, 500])
+        kind = rng.choice(['complex', 'complex', 'simple', 'error'])
+        resp = ['complex', rng.choice([4, cmax - 3, cmax + 9])] if kind == 'complex' else ['error', 4] if kind == 'error' else [kind]
+        reqs.append({'t': t, 'src': a, 'dst': 10, 'len': rng.choice([2, 7, cmax + 3]), 'service': 12, 'resp': resp, 'resp_delay': mode})
+        t += rng.choice([0, 125, 250, 1000])
+    if rng.random() < 0.4:
+        # a second round: ids move on, a later flush may meet retransmissions
+        a = rng.choice(order)
+        reqs.append({'t': t + 500, 'src': a, 'dst': 10, 'len': 3, 'service': 12, 'resp': ['simple'], 'resp_delay': rng.choice([-2, 0, -1])})
+    spec = {'nodes': clients + [srv], 'requests': reqs}
+    if rng.random() < 0.3:
+        n = len(run_scenario(spec).frames)
+        spec['faults'] = rand_faults(rng, n, 1)
+    return spec
+
+
+def gen_iam(rng):
+    """I-Am PDUs arriving in the middle of things: the client has (or has not) a record of the server, a transaction with it
+    is open (slow answer) or not, a second I-Am announces reduced (or enlarged) capabilities, then a request is sized
+    between the old and the new limits"""
+    big, small = rng.choice([(1476, 128), (1024, 50), (480, 128), (206, 50), (128, 480), (50, 1476)])
+    segs = rng.choice([('segmentedBoth', 'noSegmentation'), ('segmentedBoth', 'segmentedBoth'), ('noSegmentation', 'segmentedBoth'),
+                       ('segmentedBoth', 'segmentedTransmit')])
+    c = node_cfg(1, maxApdu=1476, seg='segmentedBoth', window=rng.choice([1, 2, 4]), retries=rng.choice([0, 1, 2]), apduTimeout=1000, segTimeout=500, maxSegs=64)
+    s_ = node_cfg(2, maxApdu=1476, seg='segmentedBoth', window=2, retries=1, apduTimeout=1000, segTimeout=500, appTimeout=6000, maxSegs=64)
+    if rng.random() < 0.8:
+        c['know'] = {2: {'maxApdu': big, 'seg': segs[0], 'maxSegs': rng.choice([None, 4, 64])}}
+    reqs = []
+    if rng.random() < 0.8:
+        reqs.append({'t': 0, 'src': 1, 'dst': 2, 'len': rng.choice([5, 60, 300]), 'service': 12, 'resp': ['simple'],
+                     'resp_delay': rng.choice([4000, 4000, 1500, 0])})       # keeps a transaction (and the record) in use
+    iams = [{'t': rng.choice([250, 500, 500, 1250]), 'node': 1, 'peer': 2, 'maxApdu': small, 'seg': segs[1]}]
+    if rng.random() < 0.3:
+        iams.append({'t': rng.choice([1500, 2500]), 'node': 1, 'peer': 2, 'maxApdu': rng.choice([50, 206, 1024]), 'seg': rng.choice(SEG_NAMES)})
+    lo, hi = min(big, small), max(big, small)
+    for t in rng.sample([1000, 2000, 3000, 5000], rng.randrange(1, 3)):
+        reqs.append({'t': t, 'src': 1, 'dst': 2, 'len': rng.choice([lo - 7, lo + 1, (lo + hi) // 2, min(hi, 700) - 10, 2 * lo + 3, 310]),
+                     'service': 12, 'resp': ['simple'], 'resp_delay': 0})
+    reqs = [dict(r, len=max(0, min(r['len'], 1400))) for r in reqs]
+    return {'nodes': [c, s_], 'requests': reqs, 'iam': iams}
+
+
+def gen_request_tail(rng, variant=None):
+    """a segmented request and what follows its last segment: (A) the whole request is transferred and the one-frame reply is
+    lost (single fault: the whole request is retransmitted); (B) the server's ack of the last request segment is lost, the
+    first segment of a segmented response still arrives, then nothing reaches anybody any more; (C) a random loss among the
+    last frames, optionally followed by silence or a second fault"""
+    variant = variant or rng.choice('AABBC')
+    nodes = two_nodes(cmax=50, smax=50, cwin=rng.randrange(1, 5), swin=rng.randrange(1, 5), retries=rng.choice([1, 2, 3]),
+                      know=rng.random() < 0.5, apduTimeout=rng.choice([500, 1000, 3000]), segTimeout=rng.choice([500, 1000, 1500]))
+    if variant == 'A':
+        resp = rng.choice([['simple'], ['complex', 10], ['error', 3]])
+    elif variant == 'B':
+        resp = ['complex', 50 * rng.randrange(1, 4) + rng.randrange(1, 50)]
+    else:
+        resp = rng.choice([['simple'], ['simple'], ['complex', 10], ['complex', 120], ['error', 3]])
+    req = {'t': 0, 'src': 1, 'dst': 2, 'len': 50 * rng.randrange(1, 5) + rng.randrange(1, 50), 'service': 12, 'resp': resp, 'resp_delay': 0}
+    spec = {'nodes': nodes, 'requests': [req]}
+    base = run_scenario(spec)
+    n = len(base.frames)
+    roles = [frame_role(f) for f in base.frames]
+    if variant == 'A':
+        reply = [i for i, r in enumerate(roles) if r in ('sack', 'cack', 'error')]
+        spec['faults'] = {(reply[0] if reply else n - 1): []}
+    elif variant == 'B':
+        acks = [i for i, r in enumerate(roles) if r == 'segack-s']
+        first = [i for i, r in enumerate(roles) if r == 'cack-seg']
+        if acks and first:
+            spec['faults'] = {acks[-1]: []}
+            spec['silence'] = first[0] + 1 + rng.choice([0, 0, 1])
+        else:
+            spec['silence'] = max(0, n - 2)
+    else:
+        i = rng.randrange(max(0, n - 5), n)
+        spec['faults'] = {i: []}
+        u = rng.random()
+        if u < 0.4:
+            spec['silence'] = rng.randrange(i + 1, n + 4)
+        elif u < 0.6:
+            spec['faults'][rng.randrange(max(0, n - 5), n + 2)] = list(FAULT_KINDS[rng.choice(['drop', 'delay500', 'dup'])])
+    return spec
+
+
+def gen_sa_mismatch(rng):
+    """what the server recorded about the client (I-Am, at start or arriving just before the request) says it can receive
+    segments, the request itself says it cannot (SA = 0) — or the other way round — and the answer needs several segments"""
+    cmax = rng.choice([50, 128, 206])
+    cseg = rng.choice(['noSegmentation', 'segmentedTransmit', 'segmentedTransmit', 'segmentedBoth'])
+    rec = rng.choice(['segmentedBoth', 'segmentedReceive', 'segmentedBoth', 'noSegmentation'])
+    c = node_cfg(1, maxApdu=cmax, seg=cseg, retries=1, apduTimeout=1000, segTimeout=500, window=2)
+    s_ = node_cfg(2, maxApdu=rng.choice([cmax, 1476]), seg='segmentedBoth', retries=1, apduTimeout=1000, segTimeout=500, window=2, appTimeout=1000)
+    spec = {'nodes': [c, s_], 'requests': [{'t': 1000, 'src': 1, 'dst': 2, 'len': rng.choice([3, 20]), 'service': 12,
+                                             'resp': ['complex', cmax * rng.randrange(1, 4) + rng.randrange(1, cmax)], 'resp_delay': 0}]}
+    if rng.random() < 0.5:
+        s_['know'] = {1: {'maxApdu': cmax, 'seg': rec, 'maxSegs': None}}
+    else:
+        spec['iam'] = [{'t': rng.choice([0, 500, 1000]), 'node': 2, 'peer': 1, 'maxApdu': cmax, 'seg': rec}]
+    if rng.random() < 0.3:
+        spec['requests'].append({'t': 3000, 'src': 1, 'dst': 2, 'len': 3, 'service': 12, 'resp': ['complex', 2 * cmax + 5], 'resp_delay': 0})
     return spec
 
 
@@ -1352,15 +1577,19 @@ def coq_spec(spec):
     reqs = []
     for r in spec.get('requests') or []:
         resp = r.get('resp', ['simple'])
-        reqs.append('mkReq %d %d %d %d %d %s %d %d %d' % (
+        reqs.append('mkReq %d %d %d %d %d %s %d %d %s' % (
             r.get('t', 0), r['src'], r['dst'], r['len'], r.get('service', 12), _z(-1 if r.get('invoke') is None else r['invoke']),
-            RESP_KIND[resp[0]], resp[1] if len(resp) > 1 else 0, r.get('resp_delay', 0)))
+            RESP_KIND[resp[0]], resp[1] if len(resp) > 1 else 0, _z(r.get('resp_delay', 0))))
     faults = ['(%d, [%s])' % (int(k), ';'.join(str(d) for d in v)) for k, v in sorted((spec.get('faults') or {}).items(), key=lambda kv: int(kv[0]))]
     sil = spec.get('silence')
     injs = []
     for i in spec.get('inject') or []:
         injs.append('mkInj %s %d %d %d %s' % (_z(i['after']) if 'after' in i else '(-1)', i.get('t', 0), i['src'], i['dst'],
                                               coq_apdu_from_octets(inject_octets(i['frame']))))
+    if spec.get('iam'):
+        iams = ['mkIam %d %d %d %d %d' % (i['t'], i['node'], i['peer'], i['maxApdu'], SEG_NAMES.index(i['seg'])) for i in spec['iam']]
+        return 'run_spec_x [%s] [%s] [%s] %s [%s] [%s]' % (';'.join(nodes), ';'.join(reqs), ';'.join(faults), _z(-1 if sil is None else sil),
+                                                          ';'.join(injs), ';'.join(iams))
     return 'run_spec [%s] [%s] [%s] %s [%s]' % (';'.join(nodes), ';'.join(reqs), ';'.join(faults), _z(-1 if sil is None else sil), ';'.join(injs))
 
 
@@ -1385,8 +1614,10 @@ TRUSTED = ['models coq/theories/Ssm.v (SSM/ClientSSM/ServerSSM/StateMachineAcces
            'apdu.APCI.encode/decode (C07) is used by the harness to put frames on the wire and read their headers back']
 ASSUMPTIONS = ['timeouts are multiples of 125 ms (exact binary fractions of a second), every header field fits one octet',
                'one TaskManager per process, reset between scenarios; link layer replaced by the scripted medium (no NPDU header)',
-               'DeviceInfoCache reference counts and the in-place upgrade of device_info.segmentationSupported in ServerSSM.idle are not modelled '
-               '(no scenario uses a node both as server and as client towards the same peer)']
+               'DeviceInfoCache: get / I-Am update with record aliasing (open transactions see the updated record) are modelled; the reference '
+               'counts are not (the unchanged code never reads them), nor the in-place upgrade of device_info.segmentationSupported in '
+               'ServerSSM.idle (scenarios in which a node is client and server towards the same peer carry no records)',
+               'resp_delay -1 / -2 script a server application that parks its answer / gives all parked answers from inside this indication']
 
 
 def run_checked(spec, checker, max_steps=20000):
